@@ -250,6 +250,9 @@ class C15(core.Check):
         for di in range(len(DOCS)):
             tex_, plain, fl = self.doc_faults(di)
             for fi, (fid, data, ex) in enumerate(fl):
+                if di >= 6 and fid.split(':')[0] not in ('layout', 'valid', 'value'):
+                    # the two documents about locations near the end of the file: answers with valid fields only
+                    continue
                 for mode in MODES:
                     allc.append((di, fi, mode, fid.split(':')[0]))
         # server mode: valid answers (also with unusual strings) must give a JSON reply with locations in the text
@@ -266,7 +269,7 @@ class C15(core.Check):
                 by.setdefault(c[3], []).append(c)
             pick = []
             share = {'delete': 160, 'type': 500, 'value': 200, 'string': 320, 'shape': 140, 'truncate': 260,
-                     'truncate-utf8': 120, 'garbage': 40, 'exit': 8, 'valid': 16, 'command-missing': 8, 'layout': 400, 'surrogate': 300, 'server': 120,
+                     'truncate-utf8': 120, 'garbage': 40, 'exit': 8, 'valid': 16, 'command-missing': 8, 'layout': 540, 'surrogate': 300, 'server': 120,
                      'nonfinite': 240}
             for k, lst in sorted(by.items()):
                 rnd.shuffle(lst)
